@@ -106,13 +106,15 @@ def generate(rng: random.Random, tier: str):
 
     thorough = tier != "quick"
     fixed = [
-        (ce.ctc_call(1, False), "fresh", 2), (ce.ctc_call(2, True), "geff", 3), (ce.ctc_call(1, True), "geff-beside", 2),
+        (ce.ctc_call(1, False), "fresh", 3), (ce.ctc_call(1, True), "geff", 3), (ce.ctc_call(1, True), "geff-beside", 2),
         (ce.ctc_call(1, False, seg="inside"), "fresh", 3), (ce.ctc_call(1, True, seg="inside"), "geff", 2),
-        (ce.tm_call(1, False), "fresh", 3), (ce.tm_call(1, True), "geff", 3), (ce.tm_call(1, True), "geff-beside", 2), (ce.tm_call(1, True), "foreign", 2),
+        (ce.tm_call(1, False), "fresh", 3), (ce.tm_call(1, True), "geff-beside", 2), (ce.tm_call(1, True), "foreign", 2),
         (ce.graph_call("dicts", rng, False, "path"), "fresh", 3), (ce.graph_call("nxb", rng, False, "obj"), "foreign", 3),
         (ce.sg_call("sgb", rng, False, "path"), "fresh", 3), (ce.sg_call("sg", rng, True, "obj"), "geff-beside", 3),
-        (ce.sg_call("sg", rng, True, "path"), "geff", 2), (ce.graph_call("rxb", rng, False, "obj"), "fresh", 2),
+        (ce.sg_call("sg", rng, True, "path"), "geff", 3), (ce.graph_call("rxb", rng, False, "obj"), "fresh", 2),
     ]
+    if thorough:   # ~130 mutations, one conversion each: the long pole of the quick tier
+        fixed.append((ce.tm_call(1, True), "geff", 3))
     for call, pre, fmt in fixed:
         yield {"kind": "ecrash", "fmt": fmt, "pre": pre, "call": call}
     for i in range(0 if not thorough else 60):
